@@ -50,7 +50,7 @@ def main():
             return 1
         return 0
     try:
-        return runner.run_check(H, a.id, a.tier, seed, a.jobs, write_evidence=not a.no_evidence, only=a.only.split(',') if a.only else None)
+        return runner.run_check(H, a.id, a.tier, seed, a.jobs, write_evidence=not (a.no_evidence or a.only), only=a.only.split(',') if a.only else None)
     except Exception:
         traceback.print_exc()
         print(f'HARNESS-ERROR property={a.id}')
